@@ -77,6 +77,8 @@ type TermCfg struct {
 	// ParamNames: symbols for the root function's parameters by position (receiver first); default: source names.
 	// Rules use it so that renaming a parameter does not change the terms.
 	ParamNames []string
+	// ParamNamesFor: the same per root function (takes precedence when it returns a non-empty list)
+	ParamNamesFor func(fn *ssa.Function) []string
 }
 
 type tval struct {
@@ -150,8 +152,14 @@ func (ti *TermInterp) Run(fn *ssa.Function) []PathResult {
 	fr := &termFrame{fn: fn, vals: map[ssa.Value]tval{}, visit: map[*ssa.BasicBlock]int{}, loopSnap: map[*ssa.BasicBlock]map[string]*Term{}}
 	for i, p := range fn.Params {
 		name := p.Name()
-		if i < len(ti.Cfg.ParamNames) && ti.Cfg.ParamNames[i] != "" {
-			name = ti.Cfg.ParamNames[i]
+		pn := ti.Cfg.ParamNames
+		if ti.Cfg.ParamNamesFor != nil {
+			if l := ti.Cfg.ParamNamesFor(fn); len(l) > 0 {
+				pn = l
+			}
+		}
+		if i < len(pn) && pn[i] != "" {
+			name = pn[i]
 		}
 		fr.vals[p] = ti.paramVal(name, p.Type())
 	}
@@ -1262,3 +1270,6 @@ func FlattenStream(t *Term) (*Term, []*Term) {
 	}
 	return t, nil
 }
+
+// LoopBody: blocks of the natural loop headed by h (nil when h is not a loop header).
+func LoopBody(h *ssa.BasicBlock) map[*ssa.BasicBlock]bool { return loopBody(h) }
